@@ -79,17 +79,22 @@ StepSet0(st, e) ==
             /\ ~\E t \in ReqToks(st) : t.at = e.node /\ t.occ = e.occ
          THEN {st} ELSE {}
     [] e.ev = "visit"   -> Matching(st, Lab("visit", e.node, 0))
+                           \cup (IF <<e.node, "flow">> \in st.ghost
+                                 THEN {[st EXCEPT !.ghost = (@ \ {<<e.node, "flow">>}) \cup {<<e.node, "arriving">>}]} ELSE {})
     [] e.ev = "listening" ->
          IF Node(st.p, e.node).kind = "boundary"
          THEN {CloseTau([st EXCEPT !.lstn[e.node] = 1])}   \* armed with (or just before) the host's first activation
          ELSE Matching(st, Lab("listening", e.node, 0))
+              \* (a withdrawn alternative arming its catch event on the way out: the node stays armed)
+              \cup (IF <<e.node, "arriving">> \in st.ghost /\ Listeners(st, e.node) = {} /\ e.node \notin st.stale
+                    THEN {[st EXCEPT !.ghost = @ \ {<<e.node, "arriving">>}, !.stale = @ \cup {e.node}]} ELSE {})
     [] e.ev = "deliver"   -> {CloseTau(Deliver(st, e.kind, e.node))}
     [] e.ev = "deliverx"  -> {CloseTau(DeliverRacy(st, e.kind, e.node))}
     [] e.ev = "delivered" -> {CloseTau(Delivered(st, e.kind, e.node))}
     \* an observation at a node where the game has no listener is not an effect
     \* on the instance (e.g. a withdrawn alternative still reporting): ignored
     [] e.ev = "observed"  ->
-         IF e.node \in DOMAIN st.inbox /\ Listeners(st, e.node) # {}
+         IF e.node \in DOMAIN st.inbox /\ Armed(st, e.node)
          THEN {CloseTau(m.s) : m \in {m \in ObsMoves(st) :
                   m.lab.ev = "observed" /\ m.lab.node = e.node /\ m.lab.arg = <<e.kind, e.flows[1]>>}}
          ELSE {st}
